@@ -8,6 +8,8 @@
                                  entries, sets prev_hub_balance to balance - amount, changes nothing else.
     - [WD_withdraw_ok]         : converse: when the release succeeds, the amount is non-zero and within
                                  the balance, the handler succeeds.
+    - [WD_withdraw_frame], [WD_released_final] : configuration, parameters, open batch, pools and
+                                 rates are untouched; a released history entry is never rewritten.
     - [WD_wait_of_after]       : the effect on the wait list stated through [wait_of].
     - [WD_group_paid_le_arrived] : all wait entries on the batches released by a call are together worth
                                  at most balance - prev_hub_balance (hypotheses: E1', claims <= batch amounts).
@@ -17,6 +19,8 @@
     - [WD_fund_frame]          : and by every hub transition that keeps wait list, released history
                                  entries and prev_hub_balance (instances: bond, convert, slashing check,
                                  update_global, unbond of both tokens).
+    - [WD_fund_step]           : one [hub_execute] step preserves [WD_Fund] (withdrawal: bank lowered by
+                                 the payment; other messages: bank not lowered).
     - [WD_withdraw_succeeds]   : under [WD_Fund] and the E1 magnitudes, a claimant whose released claims are
                                  worth >= 1 succeeds.
     - [WD_order_independent]   : two distinct claimants are paid the same amounts in either order and
@@ -501,6 +505,46 @@ Lemma WD_hist_after h t A j :
 Proof.
   unfold GR_after. cbn [h_hist set_h_state set_h_hist].
   apply WD_get_put_all. rewrite WD_release_keys. apply WD_rg_nodup.
+Qed.
+
+(** a released entry is final: the release step never rewrites it; the entries of the group are
+    replaced by their released versions, nothing else changes in the history *)
+Lemma WD_get_group_in (g : list (N * hist_entry)) j e : get N.eqb g j = Some e -> In (j, e) g.
+Proof.
+  induction g as [|[i e0] g IH]; cbn [get]; [discriminate|].
+  destruct (j =? i) eqn:E; intros H.
+  - apply N.eqb_eq in E. inversion H; subst. left. reflexivity.
+  - right. exact (IH H).
+Qed.
+
+Theorem WD_released_final h t balance h1 j e :
+  process_withdraw_rate h t balance = Some h1 ->
+  get N.eqb (h_hist h) j = Some e -> he_released e = true ->
+  get N.eqb (h_hist h1) j = Some e.
+Proof.
+  intros Hp Hg Hr. apply GR_pwr_spec in Hp. destruct Hp as [[_ ->]|(_ & _ & ->)]; [exact Hg|].
+  rewrite WD_hist_after. unfold GR_release. cbv zeta. rewrite WD_get_map_rel.
+  destruct (get N.eqb (GR_group h t) j) as [e0|] eqn:E; [|exact Hg].
+  apply WD_get_group_in in E. apply WD_rg_in in E. destruct E as (Hg' & Hr' & _).
+  rewrite Hg in Hg'. inversion Hg'; subst e0. congruence.
+Qed.
+
+(** what a successful withdrawal leaves alone: configuration, parameters, open batch, pools, rates *)
+Theorem WD_withdraw_frame w h self sender h' msgs :
+  execute_withdraw w h self sender = Some (h', msgs) ->
+  h_cfg h' = h_cfg h /\ h_params h' = h_params h /\ h_batch h' = h_batch h /\
+  h_newowner h' = h_newowner h /\ h_oldwait h' = h_oldwait h /\
+  hs_ber (h_state h') = hs_ber (h_state h) /\ hs_ser (h_state h') = hs_ser (h_state h) /\
+  hs_bb (h_state h') = hs_bb (h_state h) /\ hs_bst (h_state h') = hs_bst (h_state h) /\
+  hs_lim (h_state h') = hs_lim (h_state h) /\ hs_lut (h_state h') = hs_lut (h_state h) /\
+  (forall j e, get N.eqb (h_hist h) j = Some e -> he_released e = true ->
+               get N.eqb (h_hist h') j = Some e).
+Proof.
+  intros H. apply WD_withdraw_exact in H. cbv zeta in H.
+  destruct H as (_ & h1 & Hp & _ & _ & _ & ->).
+  pose proof (WD_pwr_frame _ _ _ _ Hp) as (F1 & F2 & F3 & F4 & F5 & F6 & F7 & F8 & F9 & F10 & F11 & F12 & F13).
+  cbn. repeat split; try assumption.
+  intros j e Hg Hr. exact (WD_released_final _ _ _ _ _ _ Hp Hg Hr).
 Qed.
 
 Lemma WD_after_stops h t balance h1 :
@@ -1319,6 +1363,29 @@ Proof.
   - destruct (paused h); [|discriminate]. inversion H; subst h'.
     unfold migrate_wait_lists. rewrite Hold. rewrite firstn_nil. apply WD_keeps_refl.
   - check_inv H as Hp. eapply WD_receive_keeps; eauto.
+Qed.
+
+(** one hub step preserves the funding invariant: a withdrawal lowers the bank balance by exactly the
+    payment; any other message is assumed not to lower it (bond transactions forward exactly the
+    attached funds as Delegate messages: C02/C12 at world level) *)
+Theorem WD_fund_step w h self sender funds m h' out bank' :
+  hub_execute w h self sender funds m = Some (h', out) ->
+  let balance := bal (w_env w) self (hp_underlying (h_params h)) in
+  let g := GR_group h (e_now (w_env w) - hp_unbonding (h_params h)) in
+  WD_Fund h balance -> h_oldwait h = [] -> WD_open_unreleased h ->
+  (m = HWithdraw -> GR_E1' g (balance - hs_phb (h_state h)) /\ WD_claims_le h g /\
+                    bank' = balance - WD_amount_of out) ->
+  (m <> HWithdraw -> balance <= bank') ->
+  WD_Fund h' bank'.
+Proof.
+  intros H. cbv zeta. intros HF Hold Ho Hw Hnw.
+  assert (Hcase : m = HWithdraw \/ m <> HWithdraw) by (destruct m; (left; reflexivity) || (right; discriminate)).
+  destruct Hcase as [->|Hne].
+  - destruct (Hw eq_refl) as (HE & Hcl & ->).
+    unfold hub_execute in H. check_inv H as Hp.
+    destruct (WD_fund_withdraw _ _ _ _ _ _ H HF HE Hcl) as (amount & -> & _ & HF' & _).
+    exact HF'.
+  - eapply WD_fund_frame; [eapply WD_hub_execute_keeps; eassumption | exact (Hnw Hne) | exact HF].
 Qed.
 
 (** ** 11. Non-vacuity: a concrete hub satisfying every hypothesis above
